@@ -98,8 +98,8 @@ def strOp (op l r : Str) : Option Bool :=
 /-- one comparison `l op r` -/
 def compare (X : Ext) (l op r : Str) : Res Bool :=
   match X.specMatch op r l with
-  | .val b => .ok b
-  | _ =>
+  | some b => .ok b
+  | none =>
     match strOp op l r with
     | some b => .ok b
     | none => .error .undefinedComparison
